@@ -7,6 +7,7 @@ import (
 	"os"
 	"path/filepath"
 
+	"github.com/chrislusf/seaweedfs/weed/pb/filer_pb"
 	"github.com/chrislusf/seaweedfs/weed/pb/master_pb"
 	"github.com/chrislusf/seaweedfs/weed/pb/volume_server_pb"
 	weed_server "github.com/chrislusf/seaweedfs/weed/server"
@@ -77,3 +78,37 @@ func StartVS(n *Net, c VSCfg) *VS {
 func vsDir(r *simkit.Run, i int) string { return filepath.Join(r.Dir, fmt.Sprintf("vs%d", i)) }
 
 func ctxBg() context.Context { return context.Background() }
+
+// Filer is one real filer server (HTTP handlers, gRPC service, filer core on a leveldb2 store).
+type Filer struct {
+	S    *weed_server.FilerServer
+	Mux  *http.ServeMux
+	Host string
+	Port int
+}
+
+func (f *Filer) Addr() string { return fmt.Sprintf("%s:%d", f.Host, f.Port) }
+
+type FilerCfg struct {
+	Host        string
+	Port        int
+	Dir         string
+	Master      string
+	MaxMB       int
+	InlineLimit int64
+}
+
+func StartFiler(n *Net, c FilerCfg) (*Filer, error) {
+	os.MkdirAll(c.Dir, 0755)
+	mux := http.NewServeMux()
+	fs, err := weed_server.NewFilerServer(mux, mux, &weed_server.FilerOption{Masters: []string{c.Master}, DefaultReplication: "000", MaxMB: c.MaxMB,
+		DirListingLimit: 1000, DefaultLevelDbDir: c.Dir, Host: c.Host, Port: uint32(c.Port), SaveToFilerLimit: c.InlineLimit})
+	if err != nil {
+		return nil, err
+	}
+	f := &Filer{S: fs, Mux: mux, Host: c.Host, Port: c.Port}
+	n.ServeHTTP(f.Addr(), mux)
+	n.ServeGRPC(fmt.Sprintf("%s:%d", c.Host, c.Port+10000), func(s *grpc.Server) { filer_pb.RegisterSeaweedFilerServer(s, fs) })
+	simkit.Wait()
+	return f, nil
+}
